@@ -885,6 +885,19 @@ pub fn build_stream(syms: &[Sym], style: impl Fn(usize) -> Style) -> Stream {
     st
 }
 
+/// Like `build_stream`, with request indices (and so tokens) starting at `base`.
+pub fn build_stream_at(syms: &[Sym], base: usize, style: impl Fn(usize) -> Style) -> Stream {
+    let mut st = Stream::default();
+    for (i, s) in syms.iter().enumerate() {
+        let req = request(*s, base + i);
+        st.bytes.extend_from_slice(&encode(&req, style(i)));
+        st.ends.push(st.bytes.len());
+        st.exps.push(expect(*s, base + i));
+        st.syms.push(*s);
+    }
+    st
+}
+
 pub fn syms_json(syms: &[Sym]) -> Value {
     Value::Array(syms.iter().map(|s| Value::String(s.name())).collect())
 }
